@@ -8,9 +8,13 @@ from .r_reg_spl import _expect_coeffs, snap, spline_view, valid_spline
 from .r_reg_sup import same_window
 
 
+EXTENDED_FROM = 9
+
+
 def _ns(lo, hi, ns):
     full = range(lo, hi + 1)
-    return [n for n in full if ns is None or n in ns]
+    ext = [n for n in (ns or ()) if n > hi and n >= EXTENDED_FROM]   # threshold extension (r_reg.run_jobs), sparse windows
+    return [n for n in full if ns is None or n in ns] + ext
 
 
 # ------------------------------------------------------------------------------------------------
@@ -472,6 +476,10 @@ def _scalar_ok(o, want_deps, want_mono=None):
     return True, ""
 
 
+def _fmt_q(fm):
+    return " + ".join("%s*q%s" % (v_, list(k_[1:]) if k_ else "") for k_, v_ in sorted(fm.items(), key=lambda kv: str(kv[0]))) or "0"
+
+
 def bilinear_suite(chk, w, rule, nmax, order_pairs=((1, 1), (2, 1), (0, 3), (2, 2)), ns=None, fixed=True):
     cs = Cases(chk, rule, w)
     w.I.allow_const_scaling = True
@@ -597,6 +605,16 @@ def quadrature_suite(chk, w, rule, nmax, order_pairs=((1, 1), (2, 1), (0, 3), (2
                                 wantm |= {(("c", "a", I, i), ("c", "b", I, j)) for i in range(A + 1)
                                           for j in range(B + 1)}
                         ok, why = _scalar_ok(o, frozenset(want), frozenset(wantm))
+                        if ok:
+                            # every common interval is accumulated exactly once (affine form in the per-interval
+                            # contributions q[I, I+1]; not asserted if the implementation rescales them)
+                            fm = val(o.v).form()
+                            if fm is not None and any(k_ is not None and k_[0] == "q" for k_ in fm):
+                                wantq = {("q", I, I + 1): 1 for I in range(n - 1)
+                                         if wa[0] <= I and I + 1 < wa[1] and wb[0] <= I and I + 1 < wb[1]}
+                                if {k_: v_ for k_, v_ in fm.items() if k_ is not None} != wantq or fm.get(None, 0) != 0:
+                                    ok, why = False, "the sum of the interval contributions is %s, specified: each common " \
+                                                     "interval exactly once" % _fmt_q(fm)
                         if ok and (snap(a) != sa or snap(b) != sb):
                             ok, why = False, "an operand was modified"
                         cs.expect(blame(w, name, f), "%s: the quadrature extends over exactly the common intervals, with both splines' "
@@ -640,3 +658,207 @@ def constant_table_suite(chk, w, rule, nmax=8, ns=None, fixed=True):
                 cs.expect(fbin, "binomialCoefficient(n, k) = C(n, k) (0 for k > n)", dict(n=n, k=k), o,
                           is_const(o, want), str(want))
     return cs.flush()
+
+
+# ------------------------------------------------------------------------------------------------
+# kernels: the VALUE of evaluation, linear forms and bilinear forms as exact (bi)linear functionals
+# ------------------------------------------------------------------------------------------------
+def _grids(w, n, spacings, offsets=(0, 1, 5), tensor=False):
+    """Grids of n points with every combination of the given widths (sampled to <= 36) and a few offsets."""
+    from fractions import Fraction as Fr
+    import itertools
+    combos = list(itertools.product(spacings, repeat=n - 1))
+    if len(combos) > 36:
+        combos = [c for i, c in enumerate(combos) if len(set(c)) == 1 or i % (len(combos) // 30) == 0]
+    out = []
+    for ci, sp in enumerate(combos):
+        for off in (offsets if (ci % 4 == 0 or tensor) else offsets[:1]):
+            xs = [Fr(off)]
+            for h in sp:
+                xs.append(xs[-1] + h)
+            pts = [Sc(v, frozenset([("grid", i)])) for i, v in enumerate(xs)]
+            out.append((xs, w.need_grid(pts)))
+    return out
+
+
+def _lin_of(o):
+    x = val(o.v) if o.kind == "val" else None
+    if not isinstance(x, Sc) or x.lin is None:
+        return None
+    return {k: q for k, q in x.lin.items() if q != 0}
+
+
+def kernel_suite(chk, w, rule, orders=(0, 1, 2, 3), order_pairs=((1, 1), (2, 1), (0, 3), (2, 2)), ns=None, fixed=True,
+                 spacings=(1, 2, 3, 5, 7, 11), parts=("lf", "eval", "bf"), nmax=None):
+    """Exact affine forms (rational weights computed from the representative grid) of
+       * Spline::operator()(x):  sum_p a_p(I) (x - xm_I)^p            for x inside interval I,
+       * LinearForm{}(a):        sum_I sum_{p even} a_p(I) 2 h_I^{p+1} / (p+1),
+       * ScalarProduct{}(a, b):  sum_I sum_{i+j even} a_i(I) b_j(I) 2 h_I^{i+j+1} / (i+j+1)   (b = unit coefficient vectors),
+    each weight being a polynomial of bounded degree in the interval's half width h (ring operations only, asserted),
+    compared on degree+1 distinct widths."""
+    from fractions import Fraction as Fr
+    from . import interp as _ip
+    cs = Cases(chk, rule, w)
+    w.I.allow_const_scaling = True
+    w.I.int_arith_scopes = ("bspline::internal::",)
+    T = w.T
+
+    def ring_only(c0, d0):
+        return _ip.N_SC_CMP[0] == c0 and _ip.N_DIV_DEP[0] == d0
+
+    for n in (ns or (2, 3)):
+        # ---- linear form and evaluation
+        for A in (orders if ("lf" in parts or "eval" in parts) else ()):
+            flf = _case_fn(w, "lf_id", A)
+            cls = w.spline_cls(A)
+            fe = w.method(cls, "operator()", 1)
+            need = A + 2
+            if len(spacings) < need:
+                raise AnalysisBroken("kernel_suite: %d widths needed for order %d" % (need, A))
+            for xs, grid in _grids(w, n, spacings[:need]):
+                wins = [(0, n)] if n == 2 else [(0, n), (0, n - 1), (1, n)]
+                for (s_, e_) in wins:
+                    a = w.spline_on("a", A, grid, s_, e_)
+                    case = dict(order=A, points=[str(x) for x in xs], window=(s_, e_))
+                    if "lf" in parts:
+                        c0, d0 = _ip.N_SC_CMP[0], _ip.N_DIV_DEP[0]
+                        o = w.call(flf, None, [box(a)])
+                        want = {}
+                        for I in range(s_, e_ - 1):
+                            h = (xs[I + 1] - xs[I]) / 2
+                            for p_ in range(0, A + 1, 2):
+                                want[("c", "a", I, p_)] = 2 * h ** (p_ + 1) / (p_ + 1)
+                        got = _lin_of(o)
+                        ok = got == want and ring_only(c0, d0)
+                        cs.expect(blame(w, "lf_id", flf), "LinearForm{}(a) = sum over the intervals of sum_{p even} a_p 2 h^(p+1)/"
+                                  "(p+1) (exact weights, ring operations only)", case, o, ok,
+                                  "(got %s, specified %s%s)" % (_fmt_w(got), _fmt_w(want), "" if ring_only(c0, d0) else
+                                                                "; the kernel compares or divides by data"))
+                    # evaluation at order+1 abscissae inside every interval, at the end points and outside
+                    for I in (range(s_, e_ - 1) if "eval" in parts else ()):
+                        xm = (xs[I] + xs[I + 1]) / 2
+                        for t in range(A + 2):
+                            x = xs[I] + (xs[I + 1] - xs[I]) * Fr(t, A + 1)
+                            if t == A + 1 and I + 1 < e_ - 1:
+                                continue   # a shared interior grid point may be attributed to either neighbour
+                            if t == 0 and I > s_:
+                                continue
+                            o = w.call(fe, a, [box(Sc(x, frozenset([("x",)])))])
+                            want = {("c", "a", I, p_): (x - xm) ** p_ for p_ in range(A + 1) if (x - xm) ** p_ != 0}
+                            got = _lin_of(o)
+                            cs.expect(fe, "a(x) = sum_p a_p(I) (x - midpoint_I)^p for x in interval I (exact weights)",
+                                      dict(case, interval=I, x=str(x)), o, got == want,
+                                      "(got %s, specified %s)" % (_fmt_w(got), _fmt_w(want)))
+        # ---- a * b with b running over unit coefficient vectors: r_k(I) = sum_j a_j(I) b_(k-j)(I), weights exactly 1
+        for (A, B) in (order_pairs if "mul" in parts else ()):
+            clsA = w.spline_cls(A)
+            fmul = w.method(clsA, "operator*", 1, pred=lambda d: ("Spline<%s, %d>" % (T, B)) in d["params"][0]["type"])
+            grid = w.need_grid(w.grid_values(n))
+            from .r_reg_spl import spline_view
+            for (s_, e_) in ([(0, n)] if n == 2 else [(0, n), (1, n)]):
+                a = w.spline_on("a", A, grid, s_, e_)
+                for Ib in range(s_, e_ - 1):
+                    for j in range(B + 1):
+                        cb = Vec([Arr([Sc(1 if (I == Ib and q == j) else 0) for q in range(B + 1)])
+                                  for I in range(s_, e_ - 1)])
+                        b = w.need_spline(B, w.need_support(grid, s_, e_), cb)
+                        c0, d0 = _ip.N_SC_CMP[0], _ip.N_DIV_DEP[0]
+                        o = w.call(fmul, a, [box(b)])
+                        ok, why = False, repr(o)
+                        if o.kind == "val" and isinstance(val(o.v), Obj):
+                            v = spline_view(w, val(o.v))
+                            ok, why = v is not None, "result not observable"
+                            for I in (range(s_, e_ - 1) if ok else ()):
+                                arr = v[1].get(I)
+                                if arr is None or len(arr) != A + B + 1:
+                                    ok, why = False, "interval %d of the product has no array of %d coefficients" % (I, A + B + 1)
+                                    break
+                                for k in range(A + B + 1):
+                                    want = {("c", "a", I, k - j): 1} if (I == Ib and 0 <= k - j <= A) else {}
+                                    x = arr[k]
+                                    got = {k_: v_ for k_, v_ in (x.lin or {}).items() if v_ != 0} if isinstance(
+                                        x, Sc) and x.lin is not None else None
+                                    if got != want:
+                                        ok, why = False, "coefficient %d of interval %d is %s, specified %s" % (
+                                            k, I, _fmt_w(got), _fmt_w(want))
+                                        break
+                                if not ok:
+                                    break
+                            if ok and not ring_only(c0, d0):
+                                ok, why = False, "the product compares or divides by data"
+                        cs.expect(fmul, "a*b with b a unit coefficient vector: coefficient k of interval I is exactly a_(k-j)(I) "
+                                  "(the Cauchy product, weights 1)", dict(orders=(A, B), n=n, window=(s_, e_), b_interval=Ib,
+                                                                          b_power=j), o, ok, "(%s)" % why)
+        # ---- x^m * a: re-expansion about the interval's midpoint, r_q = sum_k C(m,k) xm^(m-k) a_(q-k)
+        import math
+        for A in (orders if "pos" in parts else ()):
+            for m in (0, 1, 2, 3):
+                fx = _case_fn(w, "op_x%d" % m, A)
+                for xs, grid in _grids(w, n, spacings[:4], offsets=(0, 1, 5, 6), tensor=True):
+                    s_, e_ = 0, n
+                    a = w.spline_on("a", A, grid, s_, e_)
+                    c0, d0 = _ip.N_SC_CMP[0], _ip.N_DIV_DEP[0]
+                    o = w.call(fx, None, [box(a)])
+                    ok, why = False, repr(o)
+                    if o.kind == "val" and isinstance(val(o.v), Obj):
+                        from .r_reg_spl import spline_view
+                        v = spline_view(w, val(o.v))
+                        ok, why = v is not None, "result not observable"
+                        for I in (range(s_, e_ - 1) if ok else ()):
+                            arr = v[1].get(I)
+                            xm = (xs[I] + xs[I + 1]) / 2
+                            if arr is None or len(arr) != A + m + 1:
+                                ok, why = False, "interval %d of the result has no array of %d coefficients" % (I, A + m + 1)
+                                break
+                            for q in range(A + m + 1):
+                                want = {}
+                                for k in range(m + 1):
+                                    if 0 <= q - k <= A and xm ** (m - k) != 0:
+                                        want[("c", "a", I, q - k)] = math.comb(m, k) * xm ** (m - k)
+                                got = {k_: v_ for k_, v_ in (arr[q].lin or {}).items() if v_ != 0} if isinstance(
+                                    arr[q], Sc) and arr[q].lin is not None else None
+                                if got != want:
+                                    ok, why = False, "coefficient %d of interval %d is %s, specified %s" % (
+                                        q, I, _fmt_w(got), _fmt_w(want))
+                                    break
+                            if not ok:
+                                break
+                        if ok and not ring_only(c0, d0):
+                            ok, why = False, "the operator compares or divides by data"
+                    cs.expect(blame(w, "op_x%d" % m, fx), "x^m a: coefficient q of interval I is sum_k C(m,k) midpoint^(m-k) "
+                              "a_(q-k)(I) (exact weights, ring operations only)",
+                              dict(order=A, m=m, points=[str(x) for x in xs]), o, ok, "(%s)" % why)
+        # ---- scalar product with unit coefficient vectors on the right
+        for (A, B) in (order_pairs if "bf" in parts else ()):
+            fbf = _case_fn(w, "bf_id", A, lambda f: ("Spline<%s, %d>" % (T, B)) in f.decl["params"][1]["type"])
+            need = A + B + 2
+            if len(spacings) < need:
+                raise AnalysisBroken("kernel_suite: %d widths needed for orders (%d,%d)" % (need, A, B))
+            for xs, grid in _grids(w, n, spacings[:need], offsets=(0, 3)):
+                s_, e_ = 0, n
+                a = w.spline_on("a", A, grid, s_, e_)
+                for Ib in range(s_, e_ - 1):
+                    for j in range(B + 1):
+                        cb = Vec([Arr([Sc(1 if (I == Ib and q == j) else 0) for q in range(B + 1)])
+                                  for I in range(s_, e_ - 1)])
+                        b = w.need_spline(B, w.need_support(grid, s_, e_), cb)
+                        c0, d0 = _ip.N_SC_CMP[0], _ip.N_DIV_DEP[0]
+                        o = w.call(fbf, None, [box(a), box(b)])
+                        h = (xs[Ib + 1] - xs[Ib]) / 2
+                        want = {("c", "a", Ib, i): 2 * h ** (i + j + 1) / (i + j + 1) for i in range(A + 1)
+                                if (i + j) % 2 == 0}
+                        got = _lin_of(o)
+                        ok = got == want and ring_only(c0, d0)
+                        cs.expect(blame(w, "bf_id", fbf), "<a|b> = sum over the common intervals of sum_{i+j even} a_i b_j 2 h^(i+j+1)/"
+                                  "(i+j+1) (b = unit coefficient vectors; exact weights, ring operations only)",
+                                  dict(orders=(A, B), points=[str(x) for x in xs], b_interval=Ib, b_power=j), o, ok,
+                                  "(got %s, specified %s%s)" % (_fmt_w(got), _fmt_w(want), "" if ring_only(c0, d0) else
+                                                                "; the kernel compares or divides by data"))
+    return cs.flush()
+
+
+def _fmt_w(l):
+    if l is None:
+        return "not an affine form"
+    return " + ".join("%s*%s" % (q, "1" if k is None else "%s%s" % (k[1], list(k[2:]))) for k, q in sorted(
+        l.items(), key=lambda kv: str(kv[0]))) or "0"
